@@ -70,6 +70,10 @@ func (d *DatasourceExecuting) Run(ctx ExecutionContext, produce ProduceFn, metaS
 
 			if octosql.Int.Is(d.fields[i].Type) == octosql.TypeRelationIs {
 				integer, err := fastfloat.ParseInt64(str)
+				if err != nil {
+					// Schema inference uses strconv, which accepts more (i.e. a leading '+').
+					integer, err = strconv.ParseInt(str, 10, 64)
+				}
 				if err == nil {
 					values[i] = octosql.NewInt(integer)
 					continue
@@ -78,6 +82,10 @@ func (d *DatasourceExecuting) Run(ctx ExecutionContext, produce ProduceFn, metaS
 
 			if octosql.Float.Is(d.fields[i].Type) == octosql.TypeRelationIs {
 				float, err := fastfloat.Parse(str)
+				if err != nil {
+					// Schema inference uses strconv, which accepts more (i.e. hexadecimal floats).
+					float, err = strconv.ParseFloat(str, 64)
+				}
 				if err == nil {
 					values[i] = octosql.NewFloat(float)
 					continue
